@@ -3,6 +3,7 @@
 use std::collections::HashMap;
 
 use cooklang::convert::{ConverterBuilder, PhysicalQuantity, System, UnitsFile};
+use cooklang::quantity::{Number, Quantity, ScaledQuantity, Value};
 use cooklang::Converter;
 use proptest::prelude::*;
 use serde::{Deserialize, Serialize};
@@ -254,7 +255,8 @@ impl RUnit {
 
 #[derive(Debug)]
 enum RefOutcome {
-    Accept(Vec<RUnit>, Vec<Option<BestM>>),
+    /// unit table, best lists, effective fraction settings per unit (None = depends on table order)
+    Accept(Vec<RUnit>, Vec<Option<BestM>>, Vec<Option<(bool, u8, u32)>>),
     Reject(&'static str),
     /// the outcome may depend on the iteration order of an extend table: only generic checks
     Unsure,
@@ -509,14 +511,97 @@ fn reference(files: &[FileM]) -> RefOutcome {
             }
         }
     }
-    for fr in fractions {
+    for fr in &fractions {
         for (k, _) in &fr.unit {
             if !index.contains_key(k.as_str()) {
                 return RefOutcome::Reject("unknown unit in fractions");
             }
         }
     }
-    RefOutcome::Accept(units, best)
+    let fracs = frac_reference(&fractions, &units, &index);
+    RefOutcome::Accept(units, best, fracs)
+}
+
+/// one layer of fraction settings: unset fields fall through to the next more general level
+#[derive(Debug, Clone, Copy, Default, PartialEq)]
+struct RCfg {
+    enabled: Option<bool>,
+    den: Option<u8>,
+    whole: Option<u32>,
+}
+
+impl RCfg {
+    fn merge(self, o: RCfg) -> RCfg {
+        RCfg { enabled: self.enabled.or(o.enabled), den: self.den.or(o.den), whole: self.whole.or(o.whole) }
+    }
+    fn define(self) -> (bool, u8, u32) {
+        (self.enabled.unwrap_or(false), self.den.unwrap_or(4).clamp(1, 16), self.whole.unwrap_or(u32::MAX))
+    }
+}
+
+/// Effective (enabled, max denominator, max whole) per unit, as documented in the units file format:
+/// the general levels (all, per system, per quantity) of a later layer replace those of an earlier one;
+/// a per-unit entry fills the fields it leaves unset from the *final* quantity, system and base levels
+/// (in that order); a unit without an entry uses the first of quantity, system, base that is set.
+fn frac_reference(fractions: &[&FracM], units: &[RUnit], index: &HashMap<String, usize>) -> Vec<Option<(bool, u8, u32)>> {
+    let toggle = |b: bool| RCfg { enabled: Some(b), ..Default::default() };
+    let mut all: Option<RCfg> = None;
+    let mut metric: Option<RCfg> = None;
+    let mut imperial: Option<RCfg> = None;
+    let mut quantity: HashMap<usize, RCfg> = HashMap::new();
+    for fr in fractions {
+        all = fr.all.map(toggle).or(all);
+        metric = fr.metric.map(toggle).or(metric);
+        imperial = fr.imperial.map(|(d, w)| RCfg { enabled: Some(true), den: Some(d), whole: Some(w as u32) }).or(imperial);
+        let mut seen = vec![];
+        for (q, b) in &fr.quantity {
+            let q = *q as usize % 5;
+            if seen.contains(&q) {
+                continue;
+            }
+            seen.push(q);
+            quantity.insert(q, toggle(*b));
+        }
+    }
+    let general = |u: &RUnit| -> Vec<RCfg> {
+        [quantity.get(&u.quantity).copied(), u.system.and_then(|imp| if imp { imperial } else { metric }), all].into_iter().flatten().collect()
+    };
+    let mut unit: HashMap<usize, Option<RCfg>> = HashMap::new();
+    for fr in fractions {
+        let mut seen: Vec<&String> = vec![];
+        let mut here: HashMap<usize, u8> = HashMap::new();
+        for (k, d) in &fr.unit {
+            if seen.contains(&k) {
+                continue;
+            }
+            seen.push(k);
+            let id = index[k.as_str()];
+            match here.get(&id) {
+                // two keys of one table name the same unit with different settings: table order decides
+                Some(d0) if d0 != d => {
+                    unit.insert(id, None);
+                    continue;
+                }
+                Some(_) => continue,
+                None => {}
+            }
+            here.insert(id, *d);
+            let mut cfg = RCfg { den: Some(*d), ..Default::default() };
+            if let Some(inherit) = general(&units[id]).into_iter().reduce(|a, e| a.merge(e)) {
+                cfg = cfg.merge(inherit);
+            }
+            unit.insert(id, Some(cfg));
+        }
+    }
+    units
+        .iter()
+        .enumerate()
+        .map(|(id, u)| match unit.get(&id) {
+            Some(None) => None,
+            Some(Some(c)) => Some(c.define()),
+            None => Some(general(u).first().copied().unwrap_or_default().define()),
+        })
+        .collect()
 }
 
 // ---------------------------------------------------------------------------
@@ -625,7 +710,7 @@ pub fn oracle(files: &[FileM], st: &mut Stats) -> Verdict {
         v.msg = format!("{}; files {}", v.msg, serde_json::to_string(files).unwrap());
         v
     })?;
-    if let RefOutcome::Accept(units, _best) = &refr {
+    if let RefOutcome::Accept(units, _best, fracs) = &refr {
         let actual: Vec<_> = conv.all_units().collect();
         vensure!(actual.len() == units.len(), "c16.unit-count", "converter has {} units, model {}; files {}", actual.len(), units.len(), serde_json::to_string(files).unwrap());
         for (i, (a, m)) in actual.iter().zip(units).enumerate() {
@@ -645,6 +730,37 @@ pub fn oracle(files: &[FileM], st: &mut Stats) -> Verdict {
                 a.ratio, a.difference, a.physical_quantity, a.system, m.ratio, m.difference, QUANTITIES[m.quantity], m.system,
                 serde_json::to_string(files).unwrap()
             );
+        }
+        // fraction settings, observed through try_fraction on probe values
+        if files.iter().any(|f| f.fractions.is_some()) {
+            st.class("accepted with fraction layers (effective settings probed)");
+            st.class_if(files.iter().filter(|f| f.fractions.is_some()).count() > 1, "several fraction layers");
+            for (i, m) in units.iter().enumerate() {
+                let Some((enabled, den, whole)) = fracs[i] else { continue };
+                let key = m.symbols.first().or(m.names.first()).or(m.aliases.first()).unwrap();
+                for v in [0.5, 1.0 / 3.0, 0.125, 0.0625, 2.5, 7.25, 11.5] {
+                    let mut q: ScaledQuantity = Quantity::new(Value::Number(Number::Regular(v)), Some(key.clone()));
+                    let did = match guard(|| {
+                        let d = q.try_fraction(conv);
+                        (d, q.value().clone())
+                    }) {
+                        Ok(r) => r,
+                        Err(p) => vbail!("c16.panic.try_fraction", "try_fraction panicked: {p}; files {}", serde_json::to_string(files).unwrap()),
+                    };
+                    let expected = if enabled { Number::new_approx(v, 0.05, den, whole) } else { None };
+                    let ok = match (&expected, &did) {
+                        (None, (false, _)) => true,
+                        (Some(n), (true, Value::Number(got))) => n == got,
+                        _ => false,
+                    };
+                    vensure!(
+                        ok,
+                        "c16.fraction-layering",
+                        "unit #{i} ({key}): the layers give fractions enabled={enabled}, max denominator {den}, max whole {whole}, so {v} reads {expected:?}; try_fraction gave {did:?}; files {}",
+                        serde_json::to_string(files).unwrap()
+                    );
+                }
+            }
         }
     }
     Ok(())
@@ -690,7 +806,7 @@ fn file(first: bool) -> impl Strategy<Value = FileM> {
     let si = (proptest::option::weighted(0.8, prefixes()), proptest::option::weighted(0.8, prefixes()), 0u8..4).prop_map(|(prefixes, symbol_prefixes, precedence)| SiM { prefixes, symbol_prefixes, precedence });
     let entry = (
         proptest::option::weighted(0.2, ratio()),
-        proptest::option::weighted(0.1, (0u32..100).prop_map(|n| n as f64)),
+        proptest::option::weighted(0.2, (0u32..100).prop_map(|n| n as f64)),
         proptest::option::weighted(0.4, words(2)),
         proptest::option::weighted(0.4, words(2)),
         proptest::option::weighted(0.5, words(2)),
@@ -707,14 +823,14 @@ fn file(first: bool) -> impl Strategy<Value = FileM> {
         proptest::option::of(any::<bool>()),
         proptest::option::of((1u8..40, 0u8..9)),
         proptest::collection::vec((0u8..5, any::<bool>()), 0..2),
-        proptest::collection::vec((word(), 1u8..20), 0..2),
+        proptest::collection::vec((word(), 1u8..20), 0..3),
     )
         .prop_map(|(all, metric, imperial, quantity, unit)| FracM { all, metric, imperial, quantity, unit });
     let group = (0u8..5, proptest::option::weighted(0.5, best()), proptest::option::weighted(0.8, units())).prop_map(|(quantity, best, units)| GroupM { quantity, best, units });
     (
         proptest::option::of(any::<bool>()),
         proptest::option::weighted(if first { 0.7 } else { 0.3 }, si),
-        proptest::option::weighted(0.3, frac),
+        proptest::option::weighted(0.4, frac),
         proptest::option::weighted(if first { 0.1 } else { 0.6 }, extend),
         proptest::collection::vec(group, 0..4),
     )
@@ -769,6 +885,15 @@ fn repair(mut files: Vec<FileM>, level: u8) -> Vec<FileM> {
                 for l in lists {
                     for u in l {
                         existing.extend(u.names.iter().chain(&u.symbols).chain(&u.aliases).cloned());
+                    }
+                }
+            }
+        }
+        for (fi, f) in files.iter_mut().enumerate() {
+            if let Some(fr) = &mut f.fractions {
+                for (ei, (k, _)) in fr.unit.iter_mut().enumerate() {
+                    if !existing.is_empty() && (k.len() + ei) % 5 != 0 {
+                        *k = existing[(k.len() * 5 + fi * 3 + ei) % existing.len()].clone();
                     }
                 }
             }
@@ -865,6 +990,53 @@ fn repair(mut files: Vec<FileM>, level: u8) -> Vec<FileM> {
             }
         }
     }
+    if level >= 2 {
+        // some extend and fraction keys name an automatically expanded unit (prefix of the first SI table + a
+        // name or symbol of an expand_si unit), the rest stay as they are
+        let mut expanded: Vec<String> = vec![];
+        let first_si = files.iter().find_map(|f| f.si.as_ref().filter(|s| s.prefixes.is_some() && s.symbol_prefixes.is_some())).cloned();
+        if let Some(si) = first_si {
+            for f in &files {
+                for g in &f.groups {
+                    let lists: Vec<&Vec<UnitM>> = match &g.units {
+                        Some(UnitsM::Unified(v)) => vec![v],
+                        Some(UnitsM::BySystem { metric, imperial, unspecified }) => vec![metric, imperial, unspecified],
+                        None => vec![],
+                    };
+                    for u in lists.into_iter().flatten().filter(|u| u.expand_si) {
+                        for i in 0..6 {
+                            if let (Some(p), Some(n)) = (si.prefixes.as_ref().unwrap()[i].first(), u.names.first()) {
+                                expanded.push(format!("{p}{n}"));
+                            }
+                            if let (Some(p), Some(n)) = (si.symbol_prefixes.as_ref().unwrap()[i].first(), u.symbols.first()) {
+                                expanded.push(format!("{p}{n}"));
+                            }
+                        }
+                    }
+                }
+            }
+        }
+        if !expanded.is_empty() {
+            for (fi, f) in files.iter_mut().enumerate() {
+                if let Some(e) = &mut f.extend {
+                    for (ei, (k, en)) in e.units.iter_mut().enumerate() {
+                        let h = k.len() * 3 + fi + ei + en.ratio.map_or(0, |r| r as usize);
+                        if h % 3 == 0 {
+                            *k = expanded[h / 3 % expanded.len()].clone();
+                        }
+                    }
+                }
+                if let Some(fr) = &mut f.fractions {
+                    for (ei, (k, d)) in fr.unit.iter_mut().enumerate() {
+                        let h = k.len() + fi * 5 + ei + *d as usize;
+                        if h % 4 == 0 {
+                            *k = expanded[h / 4 % expanded.len()].clone();
+                        }
+                    }
+                }
+            }
+        }
+    }
     files
 }
 
@@ -953,7 +1125,7 @@ pub fn run(tier: Tier) -> i32 {
         run_prop(
             &mut run,
             "layers",
-            "1-4 generated units files (unit groups by system, names/symbols/aliases from a 14-word pool incl. blank and colliding keys, SI prefix tables with each precedence, expand_si, best lists incl. unknown / empty / foreign-quantity names, fraction layers, extend tables with each precedence) with 4 repair levels so that both rejected and accepted stacks are frequent; oracle: a reference model of the layering gives must-reject verdicts and, for accepted stacks, the exact expected unit table (key order included); every accepted converter is checked for key resolution, key uniqueness and sorted, same-quantity best lists; distinct = distinct stack",
+            "1-4 generated units files (unit groups by system, names/symbols/aliases from a 14-word pool incl. blank and colliding keys, SI prefix tables with each precedence, expand_si, best lists incl. unknown / empty / foreign-quantity names, fraction layers (base / per system / per quantity / per unit), extend tables with each precedence, extend and fraction keys naming automatically expanded units) with 4 repair levels so that both rejected and accepted stacks are frequent; oracle: a reference model of the layering gives must-reject verdicts and, for accepted stacks, the exact expected unit table (key order included) and the effective fraction settings of every unit, probed through try_fraction on 7 values; every accepted converter is checked for key resolution, key uniqueness and sorted, same-quantity best lists; distinct = distinct stack",
             case,
             tier.pick(60_000, 4_000_000),
             |c: &Case, st| {
